@@ -639,6 +639,7 @@ func report(w int, r, h bool) action    { return action{Kind: "report", W: w, R:
 func reportTTL(w int, r, h bool) action { return action{Kind: "report", W: w, R: r, H: h, TTL: 300} }
 func stop(k int) action                 { return action{Kind: "stop", K: k} }
 func release(k int) action              { return action{Kind: "release", K: k} }
+func expire(k int) action               { return action{Kind: "expire", K: k} }
 
 var start = action{Kind: "start"}
 var startHeld = action{Kind: "startheld"}
@@ -654,6 +655,8 @@ func corpus() []hist {
 		{"watcher-starts-after-lapse", []action{an(0), an(1), create(0), create(1), report(0, true, true), report(1, true, false), lapse(0), start, report(0, true, true), lapse(1)}},
 		// the witness of the start-window finding
 		{"lapse-in-start-window", []action{an(0), an(1), create(0), create(1), report(0, true, true), report(1, true, true), startHeld, lapse(0), release(0), lapse(1), stop(0), start}},
+		{"expire-reacquire", []action{an(0), an(1), create(0), create(1), report(0, true, true), report(1, true, true), start, expire(0), lapse(0), lapse(1)}},
+		{"held-second-watcher", []action{an(0), an(1), create(0), create(1), report(0, true, true), report(1, true, true), start, startHeld, lapse(0), stop(0), lapse(1), release(1)}},
 		{"handover", []action{an(0), an(1), an(2), create(0), create(1), create(2), report(0, true, true), report(1, true, true), report(2, true, true), start, start, lapse(1), stop(0), lapse(2), lapse(0)}},
 	}
 }
@@ -668,6 +671,7 @@ func (g gen) history(name string, n int) hist {
 	nw, nwl := 0, 0
 	wnode := []int{}
 	started := []int{}
+	heldW := map[int]bool{}
 	for len(acts) < n+3 {
 		r := g.rng.Intn(100)
 		node := g.rng.Intn(3)
@@ -699,9 +703,20 @@ func (g gen) history(name string, n int) hist {
 			delete(alive, node)
 		case r < 90:
 			if nw < 2 {
-				acts = append(acts, start)
+				if g.rng.Intn(6) == 0 {
+					acts = append(acts, startHeld)
+					heldW[nw] = true
+				} else {
+					acts = append(acts, start)
+				}
 				started = append(started, nw)
 				nw++
+			} else if len(started) == 1 && !heldW[started[0]] && g.rng.Intn(2) == 0 {
+				// the only watcher loses its lock lease and has to take it again
+				acts = append(acts, expire(started[0]))
+			} else if len(started) > 0 && heldW[started[0]] {
+				acts = append(acts, release(started[0]))
+				delete(heldW, started[0])
 			}
 		default:
 			if len(started) > 0 {
@@ -711,9 +726,12 @@ func (g gen) history(name string, n int) hist {
 			}
 		}
 	}
-	// make sure a watcher has been around
+	// make sure a watcher has been around, and nobody stays held
 	if nw == 0 {
 		acts = append(acts, start)
+	}
+	for k := range heldW {
+		acts = append(acts, release(k))
 	}
 	return hist{name, acts}
 }
@@ -723,7 +741,7 @@ func TestC28(t *testing.T) {
 	r.Coq("From Verif Require Import Selfmon.Selfmon.", "Selfmon.case", "Selfmon.agree", "Selfmon.ok")
 	g := gen{r.Rng}
 	hs := corpus()
-	n := r.N(6, 150)
+	n := r.N(4, 150)
 	for i := 0; i < n; i++ {
 		hs = append(hs, g.history(fmt.Sprintf("rand-%d", i), 7+r.Rng.Intn(6)))
 	}
@@ -756,6 +774,6 @@ func TestC28(t *testing.T) {
 		r.Count(fmt.Sprintf("workloads=%d", nw))
 		r.Add(coqCase(res), res, map[string]any{"lapse_in_start_window": window}, downs > 0)
 	}
-	r.Finish("corpus (4 histories incl. the start-window witness) then random histories of 7-12 steps over 3 nodes, <=6 workloads, <=2 watchers " +
-		"(create | report | heartbeat | lapse by delete or lease revoke | start | stop); non-trivial = some workload ends reported down")
+	r.Finish("corpus (6 histories incl. the start-window witness, lock expiry, hand-over to a held watcher) then random histories of 7-12 steps over 3 nodes, <=6 workloads, <=2 watchers " +
+		"(create | report | heartbeat | lapse by delete or lease revoke | start | start held | release | expire | stop); non-trivial = some workload ends reported down")
 }
